@@ -15,6 +15,16 @@ def drainBytes : Nat → Int → Nat → List Nat → (Int × Nat × List Nat)
   | fuel + 1, temp, bi, out =>
     if bi > 7 then drainBytes fuel (temp / 256) (bi - 8) ((temp % 256).toNat :: out) else (temp, bi, out)
 
+/-- the per-coefficient step of `bit_pack`: or the field into the accumulator, drain whole bytes -/
+def packStep (m : Mode) (a b : Int) (bl outLen : Nat) (st : Int × Nat × List Nat) (coeff : Int) : M (Int × Nat × List Nat) := do
+  let (temp, bi, out) := st
+  let v := if a > 0 then absI (b - coeff) else absI coeff      -- abs_diff / unsigned_abs : u32
+  let sh ← shl .u32 m "conversion.rs:bit_pack:<<bit_index" v bi
+  let temp := bor .u32 temp sh
+  let (temp, bi, out) := drainBytes 8 temp (bi + bl) out
+  if out.length > outLen then throw (Fault.oob "conversion.rs:bit_pack:bytes_out[byte_index]") else
+  pure (temp, bi, out)
+
 /-- Algorithm 17 `bit_pack` (output bytes; `outLen` is the length of the slice the caller passes) -/
 def bitPack (m : Mode) (w : Poly) (a b : Int) (outLen : Nat) : M (List Nat) := do
   dassert m "conversion.rs:bit_pack:debug_assert(Alg 17: a out of range)" (decide (0 ≤ a) && decide (a < 1048576))
@@ -25,15 +35,7 @@ def bitPack (m : Mode) (w : Poly) (a b : Int) (outLen : Nat) : M (List Nat) := d
     let bl ← bitLen m ab
     pure (w.length * bl == outLen * 8))
   let bl ← bitLen m ab
-  let step := fun (st : Int × Nat × List Nat) (coeff : Int) => do
-    let (temp, bi, out) := st
-    let v := if a > 0 then absI (b - coeff) else absI coeff      -- abs_diff / unsigned_abs : u32
-    let sh ← shl .u32 m "conversion.rs:bit_pack:<<bit_index" v bi
-    let temp := bor .u32 temp sh
-    let (temp, bi, out) := drainBytes 8 temp (bi + bl) out
-    if out.length > outLen then throw (Fault.oob "conversion.rs:bit_pack:bytes_out[byte_index]") else
-    pure (temp, bi, out)
-  let (_, _, out) ← w.foldlM step (0, 0, [])
+  let (_, _, out) ← w.foldlM (packStep m a b bl outLen) (0, 0, [])
   let out := out.reverse
   pure (out ++ List.replicate (outLen - out.length) 0)
 
